@@ -255,7 +255,7 @@ def shards(tier):
                 if tier == 'quick' and (target != 1 or mutate not in (0, 2)):
                     continue
                 out.append(dict(name=f'two_rules/mode={mode},target={target},mutate={mutate}', harness='two_rules',
-                                fixed=dict(mode=mode, target=target, mutate=mutate, outputs=False, maxlen=3 if tier == 'quick' else 5), budget_s=b))
+                                fixed=dict(mode=mode, target=target, mutate=mutate, outputs=False, maxlen=3 if tier == 'quick' else 4), budget_s=b))
     out.append(dict(name='both', harness='both', fixed={}, budget_s=b))
     return out
 
@@ -263,7 +263,7 @@ def shards(tier):
 BOUNDS = {
     'quick': dict(rules='1 rule (all targets, inputs; outputs for one target) or 2 rules of length <= 3 (target t, 2 mutation kinds): symbolic strings, length <= 5 over the alphabet "abcxn.", well-formed, neither an ancestor of the other',
                   source_tree=LEAVES, targets=TARGETS, namespace_options='dynamic / required each absent or overridden with a symbolic bool (1-rule harness)', mutation='4 kinds (port/namespace, either side)'),
-    'thorough': dict(rules='1 or 2 symbolic rule strings as quick, every target x mutation x inputs/outputs combination', source_tree=LEAVES, targets=TARGETS,
+    'thorough': dict(rules='1 rule (len <= 5) or 2 rules (len <= 4), every target x mutation x inputs/outputs combination', source_tree=LEAVES, targets=TARGETS,
                      namespace_options='as quick', mutation='4 kinds'),
 }
 OUTSIDE = ['rule strings longer than 5 characters or with other letters', 'more than 2 rules', 'port names other than the fixed prefix-related family (names are dict keys: concrete)',
